@@ -44,8 +44,51 @@ fn real_tag(codec: u32) -> Vec<u8> {
     encode_multiformat(&(), codec, &Empty).expect("writing into a Vec")
 }
 
+fn hex_lit(b: &[u8]) -> String {
+    // long literals are cut into pieces: Coq's parser recurses on the length of a string literal
+    if b.len() <= 2048 {
+        format!("(unhex \"{}\")", hex(b))
+    } else {
+        let parts: Vec<String> = b.chunks(2048).map(|ch| format!("\"{}\"", hex(ch))).collect();
+        format!("(unhexs [{}])", parts.join("; "))
+    }
+}
+
+/// a byte string as a Coq term of type list N; runs of one byte (>= 64) are written `rep n b`
 fn hx(b: &[u8]) -> String {
-    format!("(unhex \"{}\")", hex(b))
+    let mut parts: Vec<String> = vec![];
+    let mut lit_start = 0usize;
+    let mut i = 0usize;
+    while i < b.len() {
+        let mut j = i;
+        while j < b.len() && b[j] == b[i] {
+            j += 1;
+        }
+        if j - i >= 64 {
+            if lit_start < i {
+                parts.push(hex_lit(&b[lit_start..i]));
+            }
+            parts.push(format!("(rep {} {})", j - i, b[i]));
+            lit_start = j;
+        }
+        i = j;
+    }
+    if lit_start < b.len() || parts.is_empty() {
+        parts.push(hex_lit(&b[lit_start..]));
+    }
+    if parts.len() == 1 {
+        parts.pop().unwrap()
+    } else {
+        format!("({})", parts.join(" ++ "))
+    }
+}
+
+fn bhash(b: &[u8]) -> u64 {
+    let mut h: u64 = 0;
+    for x in b {
+        h = (h * 257 + *x as u64 + 1) % 4294967291;
+    }
+    h
 }
 
 fn verr(dbg: &str) -> &'static str {
@@ -84,6 +127,8 @@ fn garbage(n: usize, seed: u64) -> Vec<u8> {
 struct Out {
     terms: Vec<String>,
     classes: Vec<String>,
+    /// classes of the observations grouped inside a term (one per tag / corruption / mutation)
+    classes_extra: Vec<String>,
     infos: Vec<J>,
 }
 
@@ -177,17 +222,18 @@ fn tags_of(j: &J) -> Vec<Tag> {
 
 const MSGPACK: u32 = 0x0201; // only used to label terms: the model reads the number from the source
 
-/// serialized = tag ++ payload as the real serializer wrote it; returns the payload
-fn split_payload(ser: &[u8]) -> Option<Vec<u8>> {
-    parse_multiformat_bytes(ser).ok().map(|(_, r)| r.to_vec())
-}
-
-fn tag_terms(which: &str, ser: &[u8], tags: &[Tag], de: &dyn Fn(&[u8]) -> (String, String), out: &mut Out) {
-    let payload = match split_payload(ser) {
-        Some(p) => p,
-        None => return,
-    };
+/// One WMulti term: the serialized map, its own round trip, and the payload under other tags.
+fn multi_term(which: &str, ser: &[u8], n_entries: usize, tags: &[Tag], de: &dyn Fn(&[u8]) -> (String, String), out: &mut Out) {
     let canon = real_tag(MSGPACK);
+    let (obs, cls) = de(ser);
+    // the serializer's own tag: what parse_multiformat_bytes splits off
+    let payload: Vec<u8> = match parse_multiformat_bytes(ser) {
+        Ok((_, r)) => r.to_vec(),
+        Err(_) => vec![],
+    };
+    let tag_len = ser.len() - payload.len();
+    let mut entries = vec![];
+    let mut tag_infos = vec![];
     for t in tags {
         let (tagb, tk, label) = match t {
             Tag::Canon(n) => (real_tag(*n), format!("(TagCanonical {})", n), if *n == MSGPACK { "same_codec" } else { "other_codec" }),
@@ -195,13 +241,16 @@ fn tag_terms(which: &str, ser: &[u8], tags: &[Tag], de: &dyn Fn(&[u8]) -> (Strin
         };
         let mut all = tagb.clone();
         all.extend_from_slice(&payload);
-        let (obs, cls) = de(&all);
-        out.push(
-            format!("(WMultiTag {} {} {} {} {})", MSGPACK, tk, hx(&tagb), hx(&payload), obs),
-            &format!("{}/tag/{}/{}", which, label, cls),
-            serde_json::json!({"kind": "tag", "which": which, "tag": tagb, "label": label, "obs": cls}),
-        );
+        let (o, ocls) = de(&all);
+        entries.push(format!("({}, {}, {})", tk, hx(&tagb), o));
+        out.classes_extra.push(format!("{}/tag/{}/{}", which, label, ocls));
+        tag_infos.push(serde_json::json!({"tag": tagb, "label": label, "obs": ocls, "canon": canon}));
     }
+    out.push(
+        format!("(WMulti {} {} {} {} {})", MSGPACK, tag_len, hx(ser), obs, c::list(entries)),
+        &format!("{}/roundtrip/n{}/{}", which, n_entries.min(4), cls),
+        serde_json::json!({"kind": "multi", "which": which, "entries": n_entries, "bytes": ser.len(), "obs": cls, "tags": tag_infos}),
+    );
 }
 
 fn results_terms(cr: &CallResults, tags: &[Tag], out: &mut Out) {
@@ -213,13 +262,7 @@ fn results_terms(cr: &CallResults, tags: &[Tag], out: &mut Out) {
         }
     };
     let de = |b: &[u8]| obs_term(CallResultsRepr.deserialize(b), |v: &CallResults| results_same(v, cr));
-    let (obs, cls) = de(&ser);
-    out.push(
-        format!("(WMultiRT {} {} {})", MSGPACK, hx(&ser), obs),
-        &format!("results/roundtrip/n{}/{}", cr.len().min(4), cls),
-        serde_json::json!({"kind": "results_rt", "entries": cr.len(), "bytes": ser.len()}),
-    );
-    tag_terms("results", &ser, tags, &de, out);
+    multi_term("results", &ser, cr.len(), tags, &de, out);
 }
 
 fn requests_terms(rq: &CallRequests, tags: &[Tag], out: &mut Out) {
@@ -231,13 +274,7 @@ fn requests_terms(rq: &CallRequests, tags: &[Tag], out: &mut Out) {
         }
     };
     let de = |b: &[u8]| obs_term(CallRequestsRepr.deserialize(b), |v: &CallRequests| v == rq);
-    let (obs, cls) = de(&ser);
-    out.push(
-        format!("(WMultiRT {} {} {})", MSGPACK, hx(&ser), obs),
-        &format!("requests/roundtrip/n{}/{}", rq.len().min(4), cls),
-        serde_json::json!({"kind": "requests_rt", "entries": rq.len(), "bytes": ser.len()}),
-    );
-    tag_terms("requests", &ser, tags, &de, out);
+    multi_term("requests", &ser, rq.len(), tags, &de, out);
 }
 
 fn do_callmaps(case: &J, out: &mut Out) {
@@ -283,49 +320,100 @@ fn full_obs(bytes: &[u8]) -> (String, bool) {
         InterpreterDataEnvelope::try_from_slice(&b).ok().map(|e| (e.versions.data_version.to_string(), e.versions.interpreter_version.to_string(), e.inner_data.to_vec()))
     });
     match r {
-        Ok(Some((dv, iv, inner))) => (format!("(Some ({}, {}, {}))", c::s(&dv), c::s(&iv), hx(&inner)), true),
+        Ok(Some((dv, iv, inner))) => (format!("(Some ({}, {}, {}, {}))", c::s(&dv), c::s(&iv), inner.len(), bhash(&inner)), true),
         Ok(None) => ("None".into(), false),
         Err(_) => ("EnvelopePanic".into(), false),
     }
 }
 
-/// offset of the `inner_data` value inside a serialized envelope (= where the bin marker is)
-fn inner_offset(real: &[u8], inner_len: usize) -> usize {
-    let hdr = if inner_len < 256 { 2 } else if inner_len < 65536 { 3 } else { 5 };
-    real.len().saturating_sub(inner_len + hdr)
-}
-
-fn envelope_terms(dv: &semver::Version, iv: &semver::Version, inner: &[u8], label: &str, raw_muts: &J, seed: u64, out: &mut Out) -> Option<Vec<u8>> {
-    let env = InterpreterDataEnvelope { versions: Versions { data_version: dv.clone(), interpreter_version: iv.clone() }, inner_data: inner.to_vec().into() };
-    let real = match env.serialize() {
+/// One WEnv term: the envelope, its own round trip, `try_get_versions` under corrupted inner data,
+/// and both readers on the cut / extended / bit-flipped bytes.
+fn envelope_terms(dv: &semver::Version, iv: &semver::Version, inner: &[u8], label: &str, raw_muts: &J, corrupt: &J, seed: u64, out: &mut Out) -> Option<Vec<u8>> {
+    let mk = |i: &[u8]| InterpreterDataEnvelope { versions: Versions { data_version: dv.clone(), interpreter_version: iv.clone() }, inner_data: i.to_vec().into() };
+    let real = match mk(inner).serialize() {
         Ok(r) => r,
         Err(e) => {
             out.push(format!("(WDataRT {} false)", c::s("envelope_serialize_failed")), "envelope/serialize_failed", serde_json::json!({"error": format!("{e}")}));
             return None;
         }
     };
+    if real.len() < inner.len() || &real[real.len() - inner.len()..] != inner {
+        // the term format relies on it; anything else is a finding in itself
+        out.push(format!("(WDataRT {} false)", c::s("inner_data_is_not_the_tail_of_the_envelope")), "envelope/LAYOUT", serde_json::json!({"label": label}));
+        return Some(real);
+    }
     let same = match InterpreterDataEnvelope::try_from_slice(&real) {
         Ok(e2) => e2.versions.data_version == *dv && e2.versions.interpreter_version == *iv && e2.inner_data.as_ref() == inner,
         Err(_) => false,
     };
     let sz = if inner.len() < 256 { "bin8" } else if inner.len() < 65536 { "bin16" } else { "bin32" };
-    out.push(
-        format!("(WEnvelope {} {} {} {} {})", c::s(&dv.to_string()), c::s(&iv.to_string()), hx(inner), hx(&real), c::b(same)),
-        &format!("envelope/{}/{}/{}", label, sz, if same { "same" } else { "DIFFERENT" }),
-        serde_json::json!({"kind": "envelope", "label": label, "inner_len": inner.len(), "len": real.len()}),
-    );
-    // raw mutations of the serialized envelope: correspondence of the two readers only
-    let off = inner_offset(&real, inner.len());
-    let mut muts: Vec<(String, Vec<u8>)> = vec![];
+
+    // corrupted inner data, re-serialized by the real code
+    let mut vers = vec![];
+    let mut vinfo = vec![];
+    for (k, cj) in corrupt.as_array().cloned().unwrap_or_default().iter().enumerate() {
+        let s = seed.wrapping_add(k as u64 * 7919);
+        let (name, cterm, bad): (String, String, Vec<u8>) = if let Some(n) = cj.get("garbage") {
+            let g = garbage(n.as_u64().unwrap_or(0) as usize, s);
+            ("garbage".into(), format!("(CBytes {})", hx(&g)), g)
+        } else if let Some(n) = cj.get("flip") {
+            if inner.is_empty() {
+                continue;
+            }
+            let mut b = inner.to_vec();
+            let i = (n.as_u64().unwrap_or(0) as usize) % b.len();
+            let bit = s % 8;
+            b[i] ^= 1 << bit;
+            ("flip".into(), format!("(CFlip {} {})", i, bit), b)
+        } else if let Some(n) = cj.get("truncate") {
+            if inner.is_empty() {
+                continue;
+            }
+            let i = (n.as_u64().unwrap_or(0) as usize) % inner.len();
+            ("truncate".into(), format!("(CTruncate {})", i), inner[..i].to_vec())
+        } else if cj.get("empty").is_some() {
+            ("empty".into(), "(CTruncate 0)".into(), vec![])
+        } else {
+            continue;
+        };
+        let bytes = match mk(&bad).serialize() {
+            Ok(b) => b,
+            Err(_) => continue,
+        };
+        if bytes.len() < bad.len() || bytes[bytes.len() - bad.len()..] != bad[..] {
+            out.push(format!("(WDataRT {} false)", c::s("inner_data_is_not_the_tail_of_the_envelope")), "envelope/LAYOUT", serde_json::json!({"label": label}));
+            continue;
+        }
+        let prefix = &bytes[..bytes.len() - bad.len()];
+        let inner_readable = {
+            let b2 = bad.clone();
+            std::panic::catch_unwind(move || InterpreterData::try_from_slice(&b2).is_ok()).unwrap_or(false)
+        };
+        let (vo, vok) = versions_obs(&bytes);
+        vers.push(format!("({}, {}, {})", cterm, hx(prefix), vo));
+        out.classes_extra.push(format!("versions/{}/inner_{}/{}", name, if inner_readable { "readable" } else { "unreadable" }, if vok { "ok" } else { "NOT_READABLE" }));
+        vinfo.push(serde_json::json!({"corruption": name, "inner_len": bad.len(), "inner_readable": inner_readable, "versions_ok": vok}));
+    }
+
+    // mutations of the serialized bytes: correspondence of the two readers only
+    let hdr = if inner.len() < 256 { 2 } else if inner.len() < 65536 { 3 } else { 5 };
+    let off = real.len().saturating_sub(inner.len() + hdr);
+    let mut raws = vec![];
+    let mut push_raw = |name: &str, mterm: String, b: Vec<u8>, out: &mut Out| {
+        let (vo, vok) = versions_obs(&b);
+        let (fo, fok) = full_obs(&b);
+        raws.push(format!("({}, {}, {})", mterm, vo, fo));
+        out.classes_extra.push(format!("envelope_raw/{}/versions_{}/full_{}", name, if vok { "ok" } else { "err" }, if fok { "ok" } else { "err" }));
+    };
     for cut in raw_muts["cuts"].as_array().cloned().unwrap_or_default() {
         let k = (cut.as_u64().unwrap_or(0) as usize) % (real.len() + 1);
-        muts.push(("cut".into(), real[..k].to_vec()));
+        push_raw("cut", format!("(MCut {})", k), real[..k].to_vec(), out);
     }
     let junk = bytes_of(&raw_muts["junk"]);
     if !junk.is_empty() {
         let mut b = real.clone();
         b.extend_from_slice(&junk);
-        muts.push(("junk".into(), b));
+        push_raw("junk", format!("(MJunk {})", hx(&junk)), b, out);
     }
     for f in raw_muts["flips"].as_array().cloned().unwrap_or_default() {
         // only at or behind the inner_data value: the version texts stay valid semver
@@ -334,69 +422,43 @@ fn envelope_terms(dv: &semver::Version, iv: &semver::Version, inner: &[u8], labe
             continue;
         }
         let k = off + (f.as_u64().unwrap_or(0) as usize) % span;
+        let bit = (seed.wrapping_add(k as u64)) % 8;
         let mut b = real.clone();
-        b[k] ^= 1 << ((seed.wrapping_add(k as u64)) % 8);
-        muts.push(("flip".into(), b));
+        b[k] ^= 1 << bit;
+        push_raw("flip", format!("(MFlip {} {})", k, bit), b, out);
     }
-    for (name, b) in muts {
-        let (vo, vok) = versions_obs(&b);
-        out.push(format!("(WVersionsRaw {} {})", hx(&b), vo), &format!("envelope_raw/{}/versions_{}", name, if vok { "ok" } else { "err" }), serde_json::json!({"kind": "versions_raw", "mutation": name}));
-        let (fo, fok) = full_obs(&b);
-        out.push(format!("(WFullRaw {} {})", hx(&b), fo), &format!("envelope_raw/{}/full_{}", name, if fok { "ok" } else { "err" }), serde_json::json!({"kind": "full_raw", "mutation": name}));
-    }
+    out.push(
+        format!(
+            "(WEnv {} {} {} {} {} {} {})",
+            c::s(&dv.to_string()),
+            c::s(&iv.to_string()),
+            inner.len(),
+            hx(&real),
+            c::b(same),
+            c::list(vers),
+            c::list(raws)
+        ),
+        &format!("envelope/{}/{}/{}", label, sz, if same { "same" } else { "DIFFERENT" }),
+        serde_json::json!({"kind": "envelope", "label": label, "inner_len": inner.len(), "len": real.len(), "same": same, "vers": vinfo}),
+    );
     Some(real)
-}
-
-/// the envelope with its inner data replaced; `try_get_versions` must still give the versions
-fn corrupted_terms(dv: &semver::Version, iv: &semver::Version, inner: &[u8], corrupt: &J, seed: u64, out: &mut Out) {
-    for (k, cj) in corrupt.as_array().cloned().unwrap_or_default().iter().enumerate() {
-        let s = seed.wrapping_add(k as u64 * 7919);
-        let (name, bad): (String, Vec<u8>) = if let Some(n) = cj.get("garbage") {
-            ("garbage".into(), garbage(n.as_u64().unwrap_or(0) as usize, s))
-        } else if let Some(n) = cj.get("flip") {
-            if inner.is_empty() {
-                continue;
-            }
-            let mut b = inner.to_vec();
-            let i = (n.as_u64().unwrap_or(0) as usize) % b.len();
-            b[i] ^= 1 << (s % 8);
-            ("flip".into(), b)
-        } else if let Some(n) = cj.get("truncate") {
-            if inner.is_empty() {
-                continue;
-            }
-            let i = (n.as_u64().unwrap_or(0) as usize) % inner.len();
-            ("truncate".into(), inner[..i].to_vec())
-        } else if cj.get("empty").is_some() {
-            ("empty".into(), vec![])
-        } else {
-            continue;
-        };
-        let env = InterpreterDataEnvelope { versions: Versions { data_version: dv.clone(), interpreter_version: iv.clone() }, inner_data: bad.clone().into() };
-        let bytes = match env.serialize() {
-            Ok(b) => b,
-            Err(_) => continue,
-        };
-        let inner_readable = {
-            let b2 = bad.clone();
-            std::panic::catch_unwind(move || InterpreterData::try_from_slice(&b2).is_ok()).unwrap_or(false)
-        };
-        let (vo, vok) = versions_obs(&bytes);
-        out.push(
-            format!("(WVersions {} {} {} {})", c::s(&dv.to_string()), c::s(&iv.to_string()), hx(&bytes), vo),
-            &format!("versions/{}/inner_{}/{}", name, if inner_readable { "readable" } else { "unreadable" }, if vok { "ok" } else { "NOT_READABLE" }),
-            serde_json::json!({"kind": "versions", "corruption": name, "inner_len": bad.len(), "inner_readable": inner_readable}),
-        );
-    }
 }
 
 fn do_envelope(case: &J, out: &mut Out) {
     let dv = semver::Version::parse(case["dv"].as_str().unwrap_or("0.6.3")).unwrap_or(semver::Version::new(0, 6, 3));
     let iv = semver::Version::parse(case["iv"].as_str().unwrap_or("0.61.0")).unwrap_or(semver::Version::new(0, 61, 0));
     let seed = case["seed"].as_u64().unwrap_or(1);
-    let inner = garbage(case["inner_len"].as_u64().unwrap_or(0) as usize, seed);
-    envelope_terms(&dv, &iv, &inner, "synthetic", case, seed, out);
-    corrupted_terms(&dv, &iv, &inner, &case["corrupt"], seed, out);
+    let n = case["inner_len"].as_u64().unwrap_or(0) as usize;
+    // big inner data: random head and tail around one long run (keeps the Coq term small)
+    let inner = if n > 4096 {
+        let mut v = garbage(48, seed);
+        v.extend(std::iter::repeat((seed % 251) as u8).take(n - 96));
+        v.extend(garbage(48, seed ^ 0x5555));
+        v
+    } else {
+        garbage(n, seed)
+    };
+    envelope_terms(&dv, &iv, &inner, "synthetic", case, &case["corrupt"], seed, out);
 }
 
 // ---------------------------------------------------------------------------------------------
@@ -456,7 +518,7 @@ fn do_data(case: &J, out: &mut Out) {
         let dv = env.versions.data_version.clone();
         let iv = env.versions.interpreter_version.clone();
         let inner: Vec<u8> = env.inner_data.to_vec();
-        let real = envelope_terms(&dv, &iv, &inner, "run", &case["raw_muts"], s, out);
+        let real = envelope_terms(&dv, &iv, &inner, "run", &case["raw_muts"], &case["corrupt"], s, out);
         if let Some(real) = &real {
             out.push(
                 format!("(WDataRT {} {})", c::s("envelope_reencoded_bytes_equal"), c::b(real == data)),
@@ -485,7 +547,6 @@ fn do_data(case: &J, out: &mut Out) {
             &format!("data/interpreter_data/{}", match same { Some(true) => "same", Some(false) => "DIFFERENT", None => "UNREADABLE" }),
             serde_json::json!({"kind": "data_rt", "step": rec.step, "inner_len": inner.len()}),
         );
-        corrupted_terms(&dv, &iv, &inner, &case["corrupt"], s, out);
     }
 }
 
@@ -507,7 +568,7 @@ fn main() {
                 continue;
             }
         };
-        let mut out = Out { terms: vec![], classes: vec![], infos: vec![] };
+        let mut out = Out { terms: vec![], classes: vec![], classes_extra: vec![], infos: vec![] };
         match case["kind"].as_str().unwrap_or("") {
             "varint" => do_varint(&case, &mut out),
             "callmaps" => do_callmaps(&case, &mut out),
@@ -518,6 +579,6 @@ fn main() {
                 continue;
             }
         }
-        println!("{}", serde_json::json!({"coq": out.terms, "classes": out.classes, "info": out.infos}));
+        println!("{}", serde_json::json!({"coq": out.terms, "classes": out.classes, "classes_extra": out.classes_extra, "info": out.infos}));
     }
 }
